@@ -64,10 +64,20 @@ fn compare<T: BitRepr>(what: &str, c: &T, small: bool, out: &mut Outcome) -> boo
 pub fn check_stream(case: &StreamCase) -> Outcome {
     let mut out = Outcome::new(case.fp());
     let samples = case.inp.samples();
-    let Ok((stream, _)) = encode_case(case, &samples) else {
+    let Ok((mut stream, _)) = encode_case(case, &samples) else {
         out.class("skipped:encode-failed(C01)");
         return out;
     };
+    // 0..=3 unknown metadata blocks appended through the public API
+    let nmeta = (case.inp.seed >> 7) as usize % 4;
+    for i in 0..nmeta {
+        if let Ok(m) = flacenc::component::MetadataBlockData::new_unknown(1 + ((case.inp.seed >> 11) as usize + 17 * i) as u8 % 126, &vec![0x3Cu8; ((case.inp.seed >> 19) as usize + 5 * i) % 50]) {
+            stream.add_metadata_block(m);
+        }
+    }
+    if nmeta > 0 {
+        out.class("extra-metadata-blocks");
+    }
     let small = stream.count_bits() <= crate::enc::sane_bits(samples.len(), case.inp.bps);
     if !small {
         out.class("oversized:count-sink-only");
@@ -77,6 +87,9 @@ pub fn check_stream(case: &StreamCase) -> Outcome {
     }
     compare("stream-info", stream.stream_info(), true, &mut out);
     let mut child_sum = 32 + 32 + stream.stream_info().count_bits();
+    for i in 0..nmeta {
+        child_sum += 32 + 8 * (((case.inp.seed >> 19) as usize + 5 * i) % 50);
+    }
     for n in 0..stream.frame_count() {
         let f = stream.frame(n).unwrap();
         if f.count_bits() % 8 != 0 {
